@@ -65,10 +65,13 @@ Data == [r |-> RRec("r"), rp |-> RRec("rp"),
          im |-> [t |-> "imap", m |-> [one |-> KRec("im[1]")]],                  \* map[int]K with the key 1
          pm |-> PMap([a |-> KRec("pm[a]")]), pms |-> A(<<PMap([a |-> KRec("pms[0][a]")])>>),
          em |-> ERec("em"), ems |-> A(<<ERec("ems[0]")>>),
+         \* a slice of structs that embed a POINTER to the struct ID is promoted from; the pointer is nil in the second element:
+         \* es[1].ID navigates through a nil pointer
+         es |-> A(<<Rec([ID |-> Leaf("es[0].ID"), Title |-> Leaf("es[0].Title")]), Rec([ID |-> Nil, Title |-> Leaf("es[1].Title")])>>),
          \* a map[string]interface{}: a struct, a pointer to one, and a key that is PRESENT and holds nil
          am |-> M([a |-> KRec("am[a]"), b |-> KRec("am[b]"), n |-> Nil]),
          i0 |-> I(0), i1 |-> I(1), i9 |-> I(9), imax |-> I(2147483647), ka |-> S(<<"a">>), kz |-> S(<<"z", "z">>)]
-Roots == {"r", "rp", "rs", "rm", "k", "ks", "ta", "tb", "pks", "pm", "pms", "im", "em", "ems", "am"}
+Roots == {"r", "rp", "rs", "rm", "k", "ks", "ta", "tb", "pks", "pm", "pms", "im", "em", "ems", "am", "es"}
 
 Unexported == "secret"
 VARIABLES e, v, n,     \* path expression, value reached ([t |-> "fail"] once navigation cannot be completed), steps
@@ -184,12 +187,26 @@ SelfRef == << [n |-> "kids_index_mentions_root", leaf |-> "rs[0].Kids[1].Name",
                e |-> Dot(Idx(Dot(Idx(Id("rs"), IntL(0)), "Kids"), Bin("-", Call("len", <<Id("rs")>>), IntL(1))), "Name")],
               [n |-> "tags_index_mentions_root", leaf |-> "ks[1].Tags[0]",
                e |-> Idx(Dot(Idx(Id("ks"), IntL(1)), "Tags"), Bin("-", Call("len", <<Id("ks")>>), IntL(2)))] >>
+\* programs that keep the results of two calls of a POINTER-receiver method on two different addressable-by-copy values of one
+\* type (Me returns its receiver): each result still is the value it was called on
+Kept == << [n |-> "receivers_of_two_elements", leaves |-> <<"ks[0].Name", "ks[1].Name">>,
+            prog |-> <<Let("a", MCall(Idx(Id("ks"), IntL(0)), "Me")), Let("b", MCall(Idx(Id("ks"), IntL(1)), "Me")),
+                       Text(<<"[">>), Emit(Dot(Id("a"), "Name")), Text(<<"|">>), Emit(Dot(Id("b"), "Name")), Text(<<"]">>)>>],
+           [n |-> "receivers_of_two_map_entries", leaves |-> <<"r.M[a].Name", "r.M[b].Name">>,
+            prog |-> <<Let("a", MCall(Idx(Dot(Id("r"), "M"), Str(<<"a">>)), "Me")), Let("b", MCall(Idx(Dot(Id("r"), "M"), Str(<<"b">>)), "Me")),
+                       Text(<<"[">>), Emit(Dot(Id("a"), "Name")), Text(<<"|">>), Emit(Dot(Id("b"), "Name")), Text(<<"]">>)>>] >>
+EmitKept == ~(fam = "walk" /\ n = 0 /\ e = Id("r")) \/
+               \A i \in 1..Len(Kept) :
+                  PrintT("CASE " \o ToJson([gen |-> "GenPaths", srcs |-> [kept |-> Unparse(Kept[i].prog)],
+                                             expects |-> [kept |-> [k |-> "out", pieces |-> <<[k |-> "raw", s |-> <<"[">>], [k |-> "esc", s |-> <<Kept[i].leaves[1]>>], [k |-> "raw", s |-> <<"|">>],
+                                                                                           [k |-> "esc", s |-> <<Kept[i].leaves[2]>>], [k |-> "raw", s |-> <<"]">>]>>, log |-> <<>>]],
+                                             steps |-> 3, reached |-> "kept:" \o Kept[i].n]))
 EmitSelfRef == ~(fam = "walk" /\ n = 0 /\ e = Id("r")) \/
                \A i \in 1..Len(SelfRef) :
                   PrintT("CASE " \o ToJson([gen |-> "GenPaths", srcs |-> [selfref |-> Unparse(<<Text(<<"[">>), Emit(SelfRef[i].e), Text(<<"]">>)>>)],
                                              expects |-> [selfref |-> [k |-> "out", pieces |-> <<[k |-> "raw", s |-> <<"[">>], [k |-> "esc", s |-> <<SelfRef[i].leaf>>], [k |-> "raw", s |-> <<"]">>]>>, log |-> <<>>]],
                                              steps |-> 3, reached |-> "selfref:" \o SelfRef[i].n]))
-EmitCase == EmitSelfRef /\ IF fam # "walk"
+EmitCase == EmitSelfRef /\ EmitKept /\ IF fam # "walk"
             THEN PrintT("CASE " \o ToJson([gen |-> "GenPaths", srcs |-> [revisit |-> Unparse(RevisitRes.prog)],
                                              expects |-> [revisit |-> [k |-> "out", pieces |-> RevisitRes.r.pieces, log |-> <<>>]], steps |-> 3, reached |-> fam]))
             ELSE PrintT("CASE " \o ToJson([gen |-> "GenPaths", srcs |-> [u \in Uses |-> Unparse(Prog(u))],
